@@ -18,3 +18,9 @@ Fixpoint steps_ok (steps : list (oid * (N * N))) : Prop :=
   | [] => True
   | (_, h) :: r => ((fst h <= snd h)%N /\ (N.of_nat (length r) <= snd h)%N) /\ steps_ok r
   end.
+
+(* the lower bounds announced after each yielded page, and what they should be: n-1, n-2, .., 0 *)
+Definition lowers (steps : list (oid * (N * N))) : list N := map (fun s => fst (snd s)) steps.
+
+Fixpoint countdown (n : nat) : list N :=
+  match n with O => [] | S k => N.of_nat k :: countdown k end.
